@@ -297,4 +297,112 @@ theorem validClientMsg_iff (m : ClientMsg) : validClientMsg m = true ↔ MsgOk m
       | nil => exact absurd rfl h1
       | cons f fs => simp; omega
 
+/-! ### the executable monitor is the Prop spec -/
+
+theorem isLowerHexB_iff (n : Nat) (s : String) : isLowerHexB n s = true ↔ IsLowerHex n s := by
+  simp [isLowerHexB, IsLowerHex, List.all_eq_true]
+
+theorem kindOkB_iff (k : Int) : kindOkB k = true ↔ KindOk k := by simp [kindOkB, KindOk]
+
+theorem tagOkB_iff (t : List String) : tagOkB t = true ↔ TagOk t := by
+  cases t with
+  | nil => simp [tagOkB, TagOk]
+  | cons k r =>
+    simp only [tagOkB, TagOk, bne_iff_ne, ne_eq]
+    constructor
+    · intro h; exact ⟨k, r, rfl, h⟩
+    · rintro ⟨k', r', heq, hk⟩; cases heq; exact hk
+
+theorem eventOkB_iff (e : Event) : eventOkB e = true ↔ EventOk e := by
+  simp only [eventOkB, EventOk, Bool.and_eq_true, isLowerHexB_iff, kindOkB_iff, List.all_eq_true, tagOkB_iff]
+  constructor
+  · rintro ⟨⟨⟨⟨a, b⟩, c⟩, d⟩, e'⟩; exact ⟨a, b, c, d, e'⟩
+  · rintro ⟨a, b, c, d, e'⟩; exact ⟨⟨⟨⟨a, b⟩, c⟩, d⟩, e'⟩
+
+theorem naddrOkB_iff (s : String) : naddrOkB s = true ↔ NaddrOk s := by
+  unfold naddrOkB NaddrOk
+  obtain ⟨e1, n1, c1⟩ := split_at_colon s.toList
+  simp only []
+  constructor
+  · intro h
+    simp only [Bool.and_eq_true, decide_eq_true_eq, beq_iff_eq, List.all_eq_true, List.contains_iff_mem] at h
+    obtain ⟨⟨⟨⟨hl1, hl2⟩, hk⟩, hlen⟩, hhex⟩ := h
+    cases hd1 : s.toList.dropWhile (· != ':') with
+    | nil => simp [hd1] at hl1
+    | cons x r1 =>
+      have hx := c1 x r1 hd1
+      subst hx
+      obtain ⟨e2, n2, c2⟩ := split_at_colon r1
+      simp only [hd1, List.drop_succ_cons, List.drop_zero] at hl2 hlen hhex
+      cases hd2 : r1.dropWhile (· != ':') with
+      | nil => simp [hd2] at hl2
+      | cons y r2 =>
+        have hy := c2 y r2 hd2
+        subst hy
+        cases hp : parseInt64Chars (s.toList.takeWhile (· != ':')) with
+        | none => simp [hp] at hk
+        | some kind =>
+          simp only [hp] at hk
+          refine ⟨s.toList.takeWhile (· != ':'), r1.takeWhile (· != ':'), r2, kind, ?_, n1, n2, hp,
+            (kindOkB_iff kind).1 hk, hlen, hhex⟩
+          conv => lhs; rw [e1, hd1, e2, hd2]
+          simp
+  · rintro ⟨k, pk, d, kind, hs, hk, hpk, hp, hko, hl, hh⟩
+    have hs' : s.toList = k ++ ':' :: (pk ++ ':' :: d) := by rw [hs]; simp
+    obtain ⟨t1, t2⟩ := takeWhile_of_decomp k (pk ++ ':' :: d) hk
+    obtain ⟨t3, t4⟩ := takeWhile_of_decomp pk d hpk
+    rw [hs']
+    simp only [t1, t2, t3, t4, List.drop_succ_cons, List.drop_zero, hp, (kindOkB_iff kind).2 hko, List.length_cons,
+      Bool.and_eq_true, decide_eq_true_eq, beq_iff_eq, List.all_eq_true, List.contains_iff_mem]
+    exact ⟨⟨⟨⟨by omega, by omega⟩, trivial⟩, hl⟩, hh⟩
+
+theorem tagCondOkB_iff (c : String × List String) : tagCondOkB c = true ↔ TagCondOk c := by
+  obtain ⟨name, vals⟩ := c
+  simp only [tagCondOkB, TagCondOk, isLetterByte, Bool.and_eq_true, Bool.or_eq_true, beq_iff_eq, decide_eq_true_eq,
+    bne_iff_ne, ne_eq, List.all_eq_true, isLowerHexB_iff, naddrOkB_iff]
+  constructor
+  · rintro ⟨⟨⟨⟨h1, h2⟩, h3⟩, h4⟩, h5⟩
+    refine ⟨⟨h1, h2⟩, ?_, ?_, ?_⟩
+    · intro he; rcases h3 with h | h
+      · exact absurd he h
+      · exact h
+    · intro hp; rcases h4 with h | h
+      · exact absurd hp h
+      · exact h
+    · intro ha; rcases h5 with h | h
+      · exact absurd ha h
+      · exact h
+  · rintro ⟨⟨h1, h2⟩, h3, h4, h5⟩
+    refine ⟨⟨⟨⟨h1, h2⟩, ?_⟩, ?_⟩, ?_⟩
+    · by_cases he : name = "e"
+      · exact Or.inr (h3 he)
+      · exact Or.inl he
+    · by_cases hp : name = "p"
+      · exact Or.inr (h4 hp)
+      · exact Or.inl hp
+    · by_cases ha : name = "a"
+      · exact Or.inr (h5 ha)
+      · exact Or.inl ha
+
+theorem filterOkB_iff (f : Filter) : filterOkB f = true ↔ FilterOk f := by
+  obtain ⟨ids, authors, kinds, tags, since, until_, limit⟩ := f
+  simp only [filterOkB, FilterOk, Bool.and_eq_true]
+  cases ids <;> cases authors <;> cases kinds <;> cases tags <;> cases since <;> cases until_ <;> cases limit <;>
+    simp [List.all_eq_true, isLowerHexB_iff, kindOkB_iff, tagCondOkB_iff, and_assoc]
+
+/-- **the monitor evaluated on the implementation's verdicts is the constraint set of the theorems** -/
+theorem msgOkB_iff (m : ClientMsg) : msgOkB m = true ↔ MsgOk m := by
+  cases m with
+  | event e => exact eventOkB_iff e
+  | auth e => exact eventOkB_iff e
+  | close s => simp [msgOkB, MsgOk]
+  | req s fs =>
+    simp only [msgOkB, MsgOk, Bool.and_eq_true, Bool.not_eq_true', List.all_eq_true, filterOkB_iff, List.isEmpty_eq_false_iff]
+  | count s fs =>
+    simp only [msgOkB, MsgOk, Bool.and_eq_true, Bool.not_eq_true', List.all_eq_true, filterOkB_iff, List.isEmpty_eq_false_iff]
+
+/-- hence: the validators agree with the monitor on every message -/
+theorem validClientMsg_eq_monitor (m : ClientMsg) : validClientMsg m = msgOkB m := by
+  rw [Bool.eq_iff_iff, validClientMsg_iff, msgOkB_iff]
+
 end Moc.C11
